@@ -805,3 +805,34 @@ Proof.
   destruct (hits_meta_value_max <? hits_md5_len); [reflexivity|].
   destruct (lenN (le32_enc hits_md5_len ++ key' ++ rest) <? hits_meta_len_size + hits_md5_len); reflexivity.
 Qed.
+
+(* ---------- refreshing the stored header (Rock::HeaderUpdater / MemStore::updateHeaders) ---------- *)
+Lemma chunks_concat fuel : forall sizes dflt d, concat (chunks fuel sizes dflt d) = d.
+Proof.
+  induction fuel as [|f IH]; intros sizes dflt d; destruct d as [|c d]; cbn [chunks concat]; auto.
+  - now rewrite app_nil_r.
+  - destruct sizes as [|x r]; cbn [concat]; rewrite IH; apply takeN_dropN.
+Qed.
+
+Lemma splice_tail_concat sl : forall n, n <= lenN (concat sl) ->
+  fst (splice_tail sl n) ++ concat (snd (splice_tail sl n)) = dropN n (concat sl).
+Proof.
+  induction sl as [|s t IH]; intros n H; cbn [splice_tail concat] in *.
+  - destruct n; reflexivity.
+  - rewrite lenN_app in H. destruct (n <=? lenN s) eqn:E; cbn [fst snd].
+    + rewrite dropN_app_le by lia. reflexivity.
+    + rewrite IH by lia. rewrite dropN_app_ge by lia. reflexivity.
+Qed.
+
+(* whatever the slot boundaries are, the spliced chain spells: fresh prefix, then the old stream minus its prefix *)
+Theorem update_chain_spec cap sl oldprefix body newp :
+  concat sl = oldprefix ++ body ->
+  concat (update_chain cap sl (lenN oldprefix) newp) = newp ++ body.
+Proof.
+  intros H. unfold update_chain.
+  pose proof (splice_tail_concat sl (lenN oldprefix)) as K.
+  destruct (splice_tail sl (lenN oldprefix)) as [tl rest]. cbn [fst snd] in K.
+  rewrite concat_app, chunks_concat, <- app_assoc, K by (rewrite H, lenN_app; lia).
+  rewrite H, dropN_app_ge by lia. replace (lenN oldprefix - lenN oldprefix) with 0 by lia.
+  destruct body; reflexivity.
+Qed.
